@@ -1129,3 +1129,93 @@ Proof.
         apply andb_true_iff in Hn. destruct Hn as [Hn _]. apply negb_true_iff in Hn. exact Hn. }
       rewrite Hc. exact Hplain.
 Qed.
+
+(* ================================================================== E. the pre-fix code (the old_ definitions) violates the property *)
+(* witnesses; each was replayed on the unpatched /repo through the streams rel-lossy-old and
+   rel-lossy-text-old (model and implementation agree on them) *)
+Definition w_negated_arch : relation dversion :=            (* a [!amd64] *)
+  mkRel [97%N] None (Some [[33; 97; 109; 100; 54; 52]%N]) None [].
+Definition w_two_terms : relation dversion :=               (* a <x !y> *)
+  mkRel [97%N] None None None [[Enabled [120%N]; Disabled [121%N]]].
+
+Lemma w_negated_arch_ok : relation_ok dv_parse dv_print w_negated_arch.
+Proof. repeat split. Qed.
+Lemma w_two_terms_ok : relation_ok dv_parse dv_print w_two_terms.
+Proof. repeat split. Qed.
+
+(* DESIGN §5 row 12: a negated architecture is printed as "a [!amd64]" and rejected when read *)
+Lemma old_negated_arch_refuted :
+  old_print_relation dv_print w_negated_arch = [97; 32; 91; 33; 97; 109; 100; 54; 52; 93]%N /\
+  old_relation_from_str dv_parse (old_print_relation dv_print w_negated_arch) = Err 7%N /\
+  old_relations_from_str dv_parse (old_print_relations dv_print [[w_negated_arch]]) = Err 7%N.
+Proof. vm_compute. repeat split. Qed.
+
+(* DESIGN §5 row 19: a group of two terms is printed "a <x, !y>"; Relation::from_str reads that as
+   two groups and loses the negation, Relations::from_str (which splits at ',') rejects it *)
+Lemma old_profile_separator_refuted :
+  old_print_relation dv_print w_two_terms = [97; 32; 60; 120; 44; 32; 33; 121; 62]%N /\
+  old_relation_from_str dv_parse (old_print_relation dv_print w_two_terms)
+    = Ok (mkRel [97%N] None None None [[Enabled [120%N]]; [Enabled [121%N]]]) /\
+  old_relations_from_str dv_parse (old_print_relations dv_print [[w_two_terms]]) = Err 8%N.
+Proof. vm_compute. repeat split. Qed.
+
+(* DESIGN §5 row 13: the Policy spelling "a <x !y>" of that group is read as TWO groups *)
+Lemma old_profile_group_split_refuted :
+  old_relation_from_str dv_parse [97; 32; 60; 120; 32; 33; 121; 62]%N
+  = Ok (mkRel [97%N] None None None [[Enabled [120%N]]; [Disabled [121%N]]]).
+Proof. vm_compute. reflexivity. Qed.
+
+(* DESIGN §5 row 30: "a < x >" is read as two EMPTY groups (the name x is dropped), and the value
+   read is printed as "a <> <>", which the reader then rejects *)
+Lemma old_profile_whitespace_refuted :
+  old_relation_from_str dv_parse [97; 32; 60; 32; 120; 32; 62]%N = Ok (mkRel [97%N] None None None [[]; []]) /\
+  old_relation_from_str dv_parse (old_print_relation dv_print (mkRel [97%N] None None None [[]; []])) = Err 8%N.
+Proof. vm_compute. repeat split. Qed.
+
+(* the same inputs on the patched code *)
+Lemma new_witnesses_fixed :
+  relation_from_str dv_parse (print_relation dv_print w_negated_arch) = Ok w_negated_arch /\
+  relation_from_str dv_parse (print_relation dv_print w_two_terms) = Ok w_two_terms /\
+  print_relation dv_print w_two_terms = [97; 32; 60; 120; 32; 33; 121; 62]%N /\
+  relation_from_str dv_parse [97; 32; 60; 32; 120; 32; 62]%N = Ok (mkRel [97%N] None None None [[Enabled [120%N]]]).
+Proof. vm_compute. repeat split. Qed.
+
+(* ================================================================== F. the decidable domain *)
+Lemma relation_okb_ok r : relation_okb r = true -> relation_ok dv_parse dv_print r.
+Proof.
+  unfold relation_okb, relation_ok. intros H.
+  apply andb_true_iff in H. destruct H as [H Hp]. apply andb_true_iff in H. destruct H as [H Ha].
+  apply andb_true_iff in H. destruct H as [H Hv]. apply andb_true_iff in H. destruct H as [Hn Hq].
+  split; [exact Hn|]. split; [destruct (r_archqual r); [exact Hq|exact I]|].
+  split; [destruct (r_version r) as [[c v]|]; [apply dv_canonical_ok; exact Hv|exact I]|].
+  split; [destruct (r_archs r); [exact Ha|exact I]|exact Hp].
+Qed.
+
+Lemma relations_okb_ok rs : relations_okb rs = true -> relations_ok dv_parse dv_print rs.
+Proof.
+  unfold relations_okb, relations_ok. intros H. apply Forall_forall. intros e He.
+  rewrite forallb_forall in H. specialize (H e He). destruct e as [|r e']; [discriminate|].
+  split; [discriminate|]. apply Forall_forall. intros x Hx. rewrite forallb_forall in H.
+  apply relation_okb_ok, H, Hx.
+Qed.
+
+Theorem relation_rt_dv r : relation_okb r = true ->
+  relation_from_str dv_parse (print_relation dv_print r) = Ok r.
+Proof. intros H. apply relation_rt, relation_okb_ok, H. Qed.
+Theorem relations_rt_dv rs : relations_okb rs = true ->
+  relations_from_str dv_parse (print_relations dv_print rs) = Ok rs.
+Proof. intros H. apply relations_rt, relations_okb_ok, H. Qed.
+
+(* the side conditions cannot be dropped *)
+Lemma empty_entry_needed :
+  relations_from_str dv_parse (print_relations dv_print [[] : list (relation dversion)]) = Ok [].
+Proof. reflexivity. Qed.
+Lemma canonical_version_needed :      (* upstream "1-2" without a revision is read as upstream "1", revision "2" *)
+  let v := mkDv None [49; 45; 50]%N None in
+  dv_parse (dv_print v) = Some (mkDv None [49%N] (Some [50%N])) /\
+  relation_from_str dv_parse (print_relation dv_print (mkRel [97%N] None None (Some (VC_eq, v)) []))
+  = Ok (mkRel [97%N] None None (Some (VC_eq, mkDv None [49%N] (Some [50%N]))) []).
+Proof. vm_compute. split; reflexivity. Qed.
+Lemma ident_name_needed :             (* a name with a space in it *)
+  relation_from_str dv_parse (print_relation dv_print (mkRel [97; 32; 98]%N None None None [] : relation dversion)) = Err 9%N.
+Proof. vm_compute. reflexivity. Qed.
